@@ -343,6 +343,9 @@ func (n *SimNet) serve(sn *simNode, conn *simConn) {
 					return
 				case "stall":
 					sim.Sleep(time.Duration(n.stallSec) * time.Second)
+				case "slow":
+					// answered correctly, but only after two seconds (well inside the rpc timeout)
+					sim.Sleep(2 * time.Second)
 				case "hang":
 					// the server never answers and never executes the request (a hung process)
 					sim.Sleep(1000 * time.Hour)
